@@ -173,6 +173,9 @@ def run_config(chk, ctx, name):
     chk.ob("W2.one-advance-call-site", K + tag, ninc_calls == 1,
            "the counter increment is invoked from %d sites on a key value (expected exactly one, in the key's own increment)" % ninc_calls)
 
+    # the in-memory signing key persists the complete successor key (same protocol as the byte-level API)
+    c04.in_memory_key_rules(chk, F, A, tag, "W3")
+
     # ---------------- O1: order on the signing core ----------------
     entries = A.entries_sign()
     tree, sites = c04.find_core(F, entries)
@@ -313,6 +316,19 @@ def run_config(chk, ctx, name):
         d = gs.deps([0])
         chk.ob("P1.child-identity-depends-on-parent-and-leaf", g.key + tag, {1, 2} <= d["args"],
                "%s does not depend on both the parent seed/identifier and the parent leaf (depends on parameters %s)" % (g.path, sorted(d["args"])), where=g.loc())
+        # every component of the returned identity (seed and tree identifier) must depend on both
+        for rb, rt in g.calls():
+            if rt["dest"]["local"] == 0 and not rt["dest"]["proj"] and not g.blocks[rb]["cleanup"]:
+                for ai, a in enumerate(rt["args"]):
+                    pl = core.op_place(a)
+                    if pl is None:
+                        continue
+                    owner = flow.resolve_owner(g, a)
+                    dd = gs.deps([owner if owner is not None else pl["local"]])
+                    chk.ob("P1.child-component-depends-on-parent-and-leaf", "%s#%d%s" % (g.key, ai, tag), {1, 2} <= dd["args"],
+                           "component %d of the child identity built in %s depends only on parameters %s: sibling subtrees would share it "
+                           "(it must be a function of parent seed/identifier AND parent leaf)" % (ai, g.path, sorted(dd["args"])), where=g.loc(rb))
+                    chk.count("child_components", 1)
 
     # P2: inside the decomposition routine
     dx = expr.Expr(F, dfn)
@@ -512,3 +528,4 @@ def run(chk, ctx):
     chk.floor("counter_write_sites", 5)
     chk.floor("decomposition_uses", 2)
     chk.floor("key_counter_assignments", 2)
+    chk.floor("child_components", 2)
